@@ -80,7 +80,12 @@ func (context *CHFContext) NewCHFUe(supi string) (*ChfUe, error) {
 		ue.init()
 
 		if supi != "" {
-			context.AddChfUeToUePool(&ue, supi)
+			// another request may have created the context meanwhile: keep the one already pooled
+			ue.Supi = supi
+			if existing, loaded := context.UePool.LoadOrStore(supi, &ue); loaded {
+				verifhook.At("uepool.stored", "supi", supi, "ue", existing)
+				return existing.(*ChfUe), nil
+			}
 		}
 		verifhook.At("uepool.stored", "supi", supi, "ue", &ue)
 
